@@ -271,9 +271,11 @@ theorem parse_locations_irrelevant (cfg : Cfg) {ts ts' : List Token} (h : noLocs
     integers, string literals in double quotes) after the white space `gaps[i]`, and `trail` at the end —
     any runs of `IsSpace` runes, including none, as long as neighbouring tokens do not fuse (`NoFuse`: after an
     identifier, keyword or number no alphanumeric rune (nor `.` after a number); after `?` no `.`; after `?.` no
-    `?`/`.`; after `.` no `.`/digit; after `<`, `>`, `!`, `*` none of `& | = *`; after `not` not blanks-`in`-blank;
-    after `not in` a blank or the end — the two `not in` conditions are NOT part of the property: they record a
-    deviation of the code, known finding `c11:whitespace:not-in`, see `not_in_whitespace_witness`).  Then `lex` yields the printed tokens up to locations and `parse` yields
+    `?`/`.`; after `.` no `.`/digit; after `<`, `>`, `!`, `*` none of `& | = *`; after `not` not blanks-`in`-end;
+    after `not in` a rune of `cc.wordEnd` or the end — with the fixed shape of acceptWord
+    (`cc.notInAnySpace = true`, `word_end_fixed`) that is the rule of every other keyword: no alphanumeric rune;
+    with the old shape (`word_end_old`) it is "U+0020 or the end", the deviation recorded as known finding
+    `c11:whitespace:not-in`, see `not_in_whitespace_witness`).  Then `lex` yields the printed tokens up to locations and `parse` yields
     `t` up to locations.  Hypothesis `hprint`: every printed token has a proved spelling (`Printable`: every operator, bracket and
     string; numbers whose text is digits, optional fraction, optional exponent; identifiers that do not collide with
     keywords — a printed member name such as `a.in` is an Identifier token that the lexer would read as an operator). -/
@@ -293,8 +295,8 @@ theorem whitespace_invariance {cfg : Cfg} {sh : NumShow} (hs : Setting cfg sh) (
     neighbouring tokens.  `SepOK`: every gap is white space; where the gap between two tokens is EMPTY the
     spelling of the second must not continue the first (`tokOk` of the first on the spelling of the second:
     identifier/keyword/number before an alphanumeric rune, number before `.`, `?` before `.`, `?.` before
-    `?`/`.`, `.` before `.`/digit, one of `< > ! *` before one of `& | = *`); `not in` is followed by U+0020 (or
-    ends the text); `not` is not directly followed by the token `in`.  Any non-empty gap separates (for a
+    `?`/`.`, `.` before `.`/digit, one of `< > ! *` before one of `& | = *`); `not in` is followed by a rune of
+    `cc.wordEnd` (fixed acceptWord: anything but an alphanumeric rune; old acceptWord: U+0020) or ends the text; `not` is not directly followed by the token `in`.  Any non-empty gap separates (for a
     classification in which no white space is alphanumeric, as in Go's `unicode` tables). -/
 theorem layout_rule (cc : Lex.CharClass) (hcc : cc.AsciiExact) (hsw : SpaceNotWord cc)
     (ts : List Token) (gaps : List (List Char)) (trail : List Char) (hlen : ts.length = gaps.length)
@@ -317,7 +319,8 @@ theorem whitespace_invariance_rule {cfg : Cfg} {sh : NumShow} (hs : Setting cfg 
 /-! #### … at the classification of runes regenerated from Go's `unicode` tables -/
 
 /-- the classification dumped from the Go toolchain agrees with the ASCII tables below U+0080 -/
-theorem go_charclass_ascii_exact : Gen.goCharClass.AsciiExact := Lex.CharClass.ofRanges_asciiExact _ _ _
+theorem go_charclass_ascii_exact : Gen.goCharClass.AsciiExact :=
+  Lex.CharClass.asciiExact_with (Lex.CharClass.ofRanges_asciiExact _ _ _) _
 
 private theorem go_spaces_enum (n : Nat) (h : Lex.CharClass.inRanges Gen.unicodeSpace n = true) :
     n ∈ [9,10,11,12,13,32,133,160,5760,8192,8193,8194,8195,8196,8197,8198,8199,8200,8201,8202,8232,8233,8239,8287,12288] := by
@@ -617,32 +620,83 @@ theorem whitespace_invariance_go_instance (pf : String → Option UInt64) (sf : 
   rw [htext] at h1
   exact h1
 
-/-! #### the `not in` deviation (known finding `c11:whitespace:not-in`) on the model -/
+/-! #### `not in` and white space (finding `c11:whitespace:not-in`): both shapes of lexer.acceptWord
 
-/-- the kinds and values the lexer model produces, and whether the parser model accepts them -/
-def lexParse (src : String) : Option (List (TokKind × String) × Bool) :=
-  match Lex.lex Lex.CharClass.ascii Gen.lexTables src with
+The lexer model takes the shape of `acceptWord` from the source (`Gen.acceptWordAnySpace`, read by the translator,
+stored in `Gen.goCharClass.notInAnySpace`).  All the theorems above hold for both shapes; `tokOk`/`PairOK` phrase
+the `not in` conditions through `cc.wordBlank` / `cc.wordEnd`, characterised below. -/
+
+/-- the generated classification carries the shape of acceptWord the translator found in the source -/
+theorem go_charclass_accept_word : Gen.goCharClass.notInAnySpace = Gen.acceptWordAnySpace := rfl
+
+/-- old shape: `not in` must be followed by U+0020 or the end of the text, and only U+0020 is skipped between
+    `not` and `in` -/
+theorem word_end_old (cc : Lex.CharClass) (h : cc.notInAnySpace = false) (rest : List Char) :
+    (Lex.WordEnd cc rest ↔ ∀ x, rest.head? = some x → x = ' ') ∧ (∀ c, cc.wordBlank c = true ↔ c = ' ') := by
+  simp [Lex.WordEnd, Lex.CharClass.wordEnd, Lex.CharClass.wordBlank, h]
+
+/-- fixed shape: `not in` must not be followed by an alphanumeric rune (as every other keyword), and every white
+    space rune is skipped between `not` and `in` -/
+theorem word_end_fixed (cc : Lex.CharClass) (h : cc.notInAnySpace = true) (rest : List Char) :
+    (Lex.WordEnd cc rest ↔ ∀ x, rest.head? = some x → cc.isAlphaNumeric x = false) ∧
+    (∀ c, cc.wordBlank c = true ↔ cc.isSpace c = true) := by
+  simp [Lex.WordEnd, Lex.CharClass.wordEnd, Lex.CharClass.wordBlank, h]
+
+/-- fixed shape, the lexer level in general: `not`, ANY non-empty run of white space, `in`, then anything but an
+    alphanumeric rune, is read back as the one operator token `not in` located at `not` (`Spells`: from a fresh
+    lexer state `root` yields exactly that token and stops right after `in`). -/
+theorem not_in_any_space (cc : Lex.CharClass) (hcc : cc.AsciiExact) (hsw : SpaceNotWord cc)
+    (h : cc.notInAnySpace = true) (mid : List Char) (hne : mid ≠ []) (hm : ∀ c ∈ mid, cc.isSpace c = true) :
+    Lex.Spells cc .operator "not in" ("not".toList ++ (mid ++ "in".toList))
+      (fun rest => ∀ x, rest.head? = some x → cc.isAlphaNumeric x = false) := by
+  have := Lex.spells_notin hcc mid hne (fun c hc => ((word_end_fixed cc h []).2 c).mpr (hm c hc))
+    (fun c hc => hsw c (hm c hc))
+  exact ⟨this.1, fun s L rest hf hok => this.2 s L rest hf (((word_end_fixed cc h rest).1).mpr hok)⟩
+
+/-- the kinds and values the lexer model produces under the given shape of acceptWord, and whether the parser
+    model accepts them -/
+def lexParse (anySpace : Bool) (src : String) : Option (List (TokKind × String) × Bool) :=
+  match Lex.lex { Lex.CharClass.ascii with notInAnySpace := anySpace } Gen.lexTables src with
   | .ok toks => some (toks.map (fun t => (t.kind, t.value)),
       match parse demoCfg toks with | .ok _ => true | .error _ => false)
   | .error _ => none
 
-/-- **Witness**: white space other than U+0020 inside or after `not in` changes the outcome.  `a not in b` is one
-    operator token `not in` and parses; with a TAB or a line feed between the words the lexer yields the two
-    operators `not`, `in` and the parser rejects; with a line feed (or `[`) right after `in` likewise.  This is the
-    behaviour of lexer.acceptWord, mirrored by the model; it is why `tokOk`/`PairOK` carry the `not in`
-    conditions, which are a listed deviation of the code and not part of the property. -/
+/-- **Witness** (the OLD shape of acceptWord, `notInAnySpace = false`): white space other than U+0020 inside or
+    after `not in` changes the outcome.  `a not in b` is one operator token `not in` and parses; with a TAB or a
+    line feed between the words the lexer yields the two operators `not`, `in` and the parser rejects; with a line
+    feed (or `[`) right after `in` likewise.  This is finding `c11:whitespace:not-in`; proposed patch
+    `proposed/c11-not-in.patch`. -/
 theorem not_in_whitespace_witness :
-    lexParse "a not in b" = some ([(.identifier, "a"), (.operator, "not in"), (.identifier, "b"), (.eof, "")], true) ∧
-    lexParse "a not\tin b" =
+    lexParse false "a not in b" =
+      some ([(.identifier, "a"), (.operator, "not in"), (.identifier, "b"), (.eof, "")], true) ∧
+    lexParse false "a not\tin b" =
       some ([(.identifier, "a"), (.operator, "not"), (.operator, "in"), (.identifier, "b"), (.eof, "")], false) ∧
-    lexParse "a not\nin b" =
+    lexParse false "a not\nin b" =
       some ([(.identifier, "a"), (.operator, "not"), (.operator, "in"), (.identifier, "b"), (.eof, "")], false) ∧
-    lexParse "a not in\nb" =
+    lexParse false "a not in\nb" =
       some ([(.identifier, "a"), (.operator, "not"), (.operator, "in"), (.identifier, "b"), (.eof, "")], false) ∧
-    lexParse "a not in[b]" =
+    lexParse false "a not in[b]" =
       some ([(.identifier, "a"), (.operator, "not"), (.operator, "in"), (.bracket, "["), (.identifier, "b"),
         (.bracket, "]"), (.eof, "")], false) := by
   refine ⟨?_, ?_, ?_, ?_, ?_⟩ <;> decide +kernel
+
+/-- the same five texts under the FIXED shape (`notInAnySpace = true`): one operator `not in` each, all accepted;
+    and `not inside` still is `not` followed by an identifier -/
+theorem not_in_whitespace_fixed :
+    lexParse true "a not in b" =
+      some ([(.identifier, "a"), (.operator, "not in"), (.identifier, "b"), (.eof, "")], true) ∧
+    lexParse true "a not\tin b" =
+      some ([(.identifier, "a"), (.operator, "not in"), (.identifier, "b"), (.eof, "")], true) ∧
+    lexParse true "a not\nin b" =
+      some ([(.identifier, "a"), (.operator, "not in"), (.identifier, "b"), (.eof, "")], true) ∧
+    lexParse true "a not in\nb" =
+      some ([(.identifier, "a"), (.operator, "not in"), (.identifier, "b"), (.eof, "")], true) ∧
+    lexParse true "a not in[b]" =
+      some ([(.identifier, "a"), (.operator, "not in"), (.bracket, "["), (.identifier, "b"),
+        (.bracket, "]"), (.eof, "")], true) ∧
+    lexParse true "not inside" = some ([(.operator, "not"), (.identifier, "inside"), (.eof, "")], true) ∧
+    lexParse false "not inside" = some ([(.operator, "not"), (.identifier, "inside"), (.eof, "")], true) := by
+  refine ⟨?_, ?_, ?_, ?_, ?_, ?_, ?_⟩ <;> decide +kernel
 
 def identNs : Outcome → Option Bool
   | .ok (.ident _ _ ns) => some ns
